@@ -260,7 +260,8 @@ CONSTANTS NU,        \* URL tokens 2..NU+1
 
 URLs == 2..(NU + 1)
 HostTok == 100
-\* two URLs share a host name, the third has none (mailto:), the last may be unparseable
+\* tokens 2 and 3: two URLs on one host; 4: a URL without host name (mailto:); 5..: another host;
+\* with BadLast the last URL token is a string that URLInfo.parse rejects
 DesignHost == [t \in 1..(NU + 1) |->
                  IF t = 1 THEN -1
                  ELSE IF t = NU + 1 /\ BadLast THEN -1
@@ -318,8 +319,6 @@ Next == \/ DoAddMany \/ DoCheckOut \/ DoCheckIn \/ DoRelease \/ DoRemove \/ DoRe
         \/ DoAddVisits \/ DoGetRevisit \/ DoReads \/ DoConvertOut \/ DoConvertIn
 
 Spec == Init /\ [][Next]_vars
-
-Bounded == n <= MaxOps
 
 -----------------------------------------------------------------------------
 (* The reference satisfies every clause of the property (design check):     *)
